@@ -222,6 +222,22 @@ def frac(x) -> Fraction:
     return Fraction(int(x)) if float(x) == int(x) else Fraction(float(x))
 
 
+def maybe_float(d):
+    """The public operations take `Decimal | float`.  A Decimal argument whose value a float holds exactly is handed over as that
+    float for half of the values (chosen by the value itself: deterministic, the same in a replay); the abstract event is unchanged."""
+    from decimal import Decimal
+    if not isinstance(d, Decimal) or not d.is_finite():
+        return d
+    fr = Fraction(d)
+    try:
+        f = float(d)
+    except OverflowError:
+        return d
+    if Fraction(f) == fr and (fr.numerator + fr.denominator) % 2 == 0:
+        return f
+    return d
+
+
 def close(a, b, rel=Fraction(0), abs_=Fraction(0)) -> bool:
     a, b = frac(a), frac(b)
     if a == b:
